@@ -302,11 +302,14 @@ func someCidBytes(b byte) []byte {
 }
 
 func runC03(r *vfw.Run) {
-	o := scen.Opts{MinIdent: 2, MaxIdent: 16, CeremonySoon: true, Skew: true}
+	o := scen.Opts{MinIdent: 2, MaxIdent: 16, CeremonySoon: true, Skew: true, Contracts: r.Choose("c03.contracts", 2) == 0}
 	lr := newLedgerRun(r, o, 20, 40)
 	s := lr.s
 	defer s.Close()
 	lr.l.Mix.Adversarial = 8
+	if o.Contracts {
+		lr.l.Mix.Contracts = 3 // blocks with receipts: the receipts commitment becomes a derived field worth tampering with
+	}
 	addrs := lr.actors()
 	outsider := scen.NewIdent("outsider", 1)
 	var blocks []*types.Block
@@ -320,6 +323,51 @@ func runC03(r *vfw.Run) {
 		var other *types.Block
 		if len(blocks) > 0 {
 			other = blocks[r.Choose("c03.other", len(blocks))]
+		}
+		// a whole block built, with its own key and its own node software, by a replica that is NOT eligible to propose
+		// (validated but offline, not validated at all, ...): consistent in every derived field, ineligible proposer
+		if r.Choose("c03.ineligible", 3) == 0 {
+			var cand []*simnode.Node
+			elig := map[int]bool{}
+			for _, n := range s.Eligible(lr.nodes) {
+				elig[n.ID] = true
+			}
+			for _, n := range lr.nodes {
+				if !elig[n.ID] {
+					cand = append(cand, n)
+				}
+			}
+			if len(cand) > 0 {
+				bad := cand[r.Choose("c03.ineligible.who", len(cand))]
+				prop, pv, _ := s.Propose(bad)
+				if pv == nil && prop != nil && prop.Block != nil {
+					enc, _ := prop.Block.ToBytes()
+					var kind string
+					bad.Do(func() {
+						st := bad.App.State.GetIdentityState(bad.Addr)
+						kind = fmt.Sprintf("identity-state-%d-online-%v", st, bad.App.IdentityState.IsOnline(bad.Addr))
+					})
+					for _, victim := range lr.nodes {
+						if victim == bad {
+							continue
+						}
+						before := victimDigest(victim, addrs, false)
+						ierr, pv, st := s.Insert(victim, enc)
+						if pv != nil {
+							r.Violate("C03:tampered-block-panicked", "block of ineligible proposer (%s) h=%d: %v\n%s", kind, rr.Height, pv, st)
+						}
+						if ierr == nil {
+							r.Violate("C03:tampered-block-accepted/proposer.ineligible-own-block", "node %d accepted block h=%d built by replica %d, which is not eligible to propose (%s)", victim.ID, rr.Height, bad.ID, kind)
+						}
+						if after := victimDigest(victim, addrs, false); before != after {
+							r.Violate("C03:rejected-block-left-side-effects/proposer.ineligible-own-block", "node %d: before %s | after %s", victim.ID, before, after)
+						}
+					}
+					r.Fault("tamper:proposer.ineligible-own-block")
+					r.Case(fmt.Sprintf("%x/ineligible/%s", rr.Block.Hash().Bytes()[:8], kind), true)
+					nontrivial++
+				}
+			}
 		}
 		for k := 0; k < perBlock; k++ {
 			victim := lr.nodes[r.Choose("c03.victim", len(lr.nodes))]
